@@ -200,6 +200,8 @@ def family(name):
         return "killed-after-request"
     if name.startswith("dropafterconnect-"):
         return "dropafterconnect"
+    if name.startswith("sibling-killed-"):
+        return "sibling-killed"
     return "single:" + name
 
 
@@ -307,6 +309,12 @@ def base_scenarios(ctx, pl, seed):
                         after_drop_ms=rnd.choice([0, 300])))
     S += pair_scenarios(ctx, rnd)
     S += est_scenarios(ctx, rnd)
+    # put to given peers, one of which is killed the moment the record arrives: the others must still be sent the record
+    # before success is reported (over QUIC closing the substream to the dead peer used to block the Kademlia loop for the
+    # idle timeout - fixed by /repo 080357c; a rare race, hence repeated)
+    for r in range(8 if ctx.quick() else 40):
+        S.append(mk("sibling-killed-put_to-all-%d" % r, [dict(H), fault("droprecv"), dict(H)],
+                    [{"kind": "put_to", "quorum": "all", "targets": [1, 2, 3]}]))
     return S
 
 
@@ -335,6 +343,8 @@ def scenarios(ctx, pl=()):
                 n = 6
             elif fam == "dropafterconnect":
                 n = 5
+            elif fam == "sibling-killed":
+                n = len(L) if tr in ("quic", "mix") else 2
             elif fam == "direct":          # the two silent placements of the quick tier: one per transport
                 n = 1
             else:
